@@ -800,6 +800,21 @@ func genByteSweep(w *bufio.Writer) {
 	}
 }
 
+// genLongLines: a line of 70 kB (comment, string, command) before, at or after the place of an error of every kind — the
+// line a located error cites and quotes is a line of the INPUT, however long its neighbours are
+func genLongLines(w *bufio.Writer) {
+	long := strings.Repeat("x", 70000)
+	heads := []string{"# " + long + "\n", "L := \"" + long + "\"\n", "task big() {\n    echo " + long + "\n}\n", ""}
+	tails := []string{"task test(\"file.go\")", "task t(", "x :=", "task t() -> ", "x := \"a\" b\n", "}", "task t() {\n  echo hi", "x := join(\"a\"",
+		"task t(a b) {}\n", "task t() -> (\"x\"\n) {}\n", "x := y z\n", "\"", "task", "task t() {}\n# " + long, "ok := \"fine\"\n"}
+	for _, h := range heads {
+		for _, t := range tails {
+			fmt.Fprintln(w, hx(h+t))
+			fmt.Fprintln(w, hx(h+"\n\n"+t+"\n# after\n"))
+		}
+	}
+}
+
 func syntaxGen(w *bufio.Writer, a map[string]string) {
 	prop := a["prop"]
 	thorough := a["tier"] == "thorough"
@@ -831,6 +846,7 @@ func syntaxGen(w *bufio.Writer, a map[string]string) {
 	default: // C16, C08 and anything else: the malformed stream dominates
 		genRuneSweep(w, false)
 		genByteSweep(w)
+		genLongLines(w)
 		if thorough {
 			genAlpha(w, 5)
 		} else {
